@@ -95,6 +95,42 @@ func c12Run(g *gm.Interp, cs *c12Case, battery []*ProgCase) (sig, what string) {
 	return "", ""
 }
 
+// c12RunDebug: the same fault, but the aborted evaluation runs in single-step debug mode
+// (Interp.Debug with a debugger that always answers `step`). Afterwards the battery is run
+// with plain Eval while a counting debugger is installed: it must never be entered (debugger
+// mode is part of the state the property wants restored), and must give the specified results.
+func c12RunDebug(g *gm.Interp, cs *c12Case, battery []*ProgCase) (sig, what string) {
+	k := cs.fault
+	g.Hook = func(n int, e string) {
+		if k > 0 && n == k {
+			panic("fault")
+		}
+	}
+	if r := g.Eval(cs.pc.Decls); r.Panicked {
+		g.Hook = nil
+		return "declaration-failed", r.Panic
+	}
+	events, result := c19Debug(g, cs.pc.Entry, &c19Debugger{all: true})
+	g.Hook = nil
+	if cs.rec.MaxP < 2 && (result != cs.pc.WantResult || strings.Join(stripBook(events), "|") != strings.Join(stripBook(cs.pc.WantEvents), "|")) {
+		return "faulted-evaluation-differs-under-single-step", "single-stepped evaluation with the hook panicking at call " + fmt.Sprint(k) + ": " +
+			describeDiff(stripBook(cs.pc.WantEvents), stripBook(events), cs.pc.WantResult, result)
+	}
+	watch := &c19Debugger{all: true}
+	g.Ir.SetDebugger(watch)
+	for bi, b := range battery {
+		ev, res := runOnGomacro(g, b)
+		if len(watch.calls) != 0 {
+			return "debug-mode-leaks-into-later-evaluation", fmt.Sprintf("after a single-stepped evaluation was aborted by a panic, battery program %d (plain Eval) entered the debugger %d times", bi, len(watch.calls))
+		}
+		if res != b.WantResult || strings.Join(stripBook(ev), "|") != strings.Join(stripBook(b.WantEvents), "|") {
+			return fmt.Sprintf("battery-%d-differs-after-aborted-evaluation", bi), fmt.Sprintf("battery program %d after the aborted single-stepped evaluation: %s", bi,
+				describeDiff(stripBook(b.WantEvents), stripBook(ev), b.WantResult, res))
+		}
+	}
+	return "", ""
+}
+
 func c12Load(c *core.Ctx, maxFault int, stride uint64) (cases []*c12Case, battery []*ProgCase, err error) {
 	coreOps := `c_Ops == {"L","call","defer","rec","panic","deferrec","deferclo","deferev"}`
 	seed := uint64(c.Seed)
@@ -219,6 +255,43 @@ func runC12(c *core.Ctx) error {
 			}
 			c.Violation(sig2, what2+"\nfaulted program (hook panics at call "+fmt.Sprint(cs.fault)+"):\n"+cs.pc.Decls,
 				map[string]interface{}{"record": cs.pc.Raw, "fault": cs.fault})
+		}
+	})
+	// the same faults with the aborted evaluation in single-step debug mode (every 4th case)
+	var dcases []*c12Case
+	for i, cs := range cases {
+		if (i+int(c.Seed))%c.Pick(6, 3) == 0 {
+			dcases = append(dcases, cs)
+		}
+	}
+	core.ParDo((len(dcases)+chunk-1)/chunk, runtime.NumCPU(), func(j int) {
+		var g *gm.Interp
+		used := 0
+		for i := j * chunk; i < (j+1)*chunk && i < len(dcases); i++ {
+			cs := dcases[i]
+			if g == nil || used >= 25 {
+				g = c19Interp()
+				used = 0
+			}
+			used++
+			sig, what := c12RunDebug(g, cs, battery)
+			c.Case(cs.pc.Key+"|single-step", true)
+			c.Trace()
+			if sig == "" {
+				continue
+			}
+			sig2, what2 := c12RunDebug(c19Interp(), cs, battery)
+			g = nil
+			if sig2 == "" {
+				mu.Lock()
+				if firstErr == nil {
+					firstErr = core.Infra("disagreement (%s) not reproducible in a fresh interpreter: %s", sig, what)
+				}
+				mu.Unlock()
+				continue
+			}
+			c.Violation(sig2, what2+"\nfaulted program (hook panics at call "+fmt.Sprint(cs.fault)+"):\n"+cs.pc.Decls,
+				map[string]interface{}{"record": cs.pc.Raw, "fault": cs.fault, "single_step": true})
 		}
 	})
 	c.Assume("the battery programs are themselves behaviours of Defer.tla (expected logs from TLC); bookkeeping is read through the verif-tagged fast.VerifSnapshot")
